@@ -2,6 +2,7 @@
 # usage: tools/try_seed.sh <patch.diff> <check-id> [tier]   -- apply patch to /repo, run the check, undo the patch
 patch=$1; id=$2; tier=${3:-quick}
 cd /repo || exit 2
+trap 'cd /repo && git reset -q --hard HEAD' EXIT INT TERM   # never leave the patch behind
 if ! git diff --quiet; then echo "repo working tree not clean"; exit 2; fi
 if ! git apply --check "$patch" 2>/dev/null; then
   if ! git apply --3way "$patch" >/dev/null 2>&1 || git diff --name-only --diff-filter=U | grep -q .; then
